@@ -177,9 +177,35 @@ def check(ctx: Ctx) -> None:
     ctx.check(ok, "ROUTE", f"{FN}: a grouped track writes into its own slot of its group", function=FN,
               construct="grouped track does not select sequences[group][position]", message=f"{[short(s, 90) for s in sel]}", file=fi.file, node=track_loop)
 
+    from ..astutil import path_conditions
+    idxv = track_loop.target.elts[0].id if isinstance(track_loop.target, ast.Tuple) else None
+
+    def _is_member_test(t):
+        return isinstance(t, ast.Call) and isinstance(t.func, ast.Name) and t.func.id == "any" and groups in src(t) and idxv is not None \
+            and any(isinstance(c, ast.Compare) and isinstance(c.ops[0], ast.In) and src(c.left) == idxv for c in ast.walk(t))
+
+    def _is_meta_test(t):
+        return isinstance(t, ast.Compare) and len(t.ops) == 1 and isinstance(t.ops[0], ast.In) and src(t.left) == idxv and src(t.comparators[0]) == metas
+    for s_ in sel:
+        pcs = path_conditions(s_, track_loop)
+        ctx.check(len(pcs) == 1 and pcs[0][1] and _is_member_test(pcs[0][0]), "ROUTE", f"{FN}: the slot is selected exactly for tracks that belong to a group", function=FN,
+                  construct="a track's own slot is selected under a condition other than `the track belongs to a group`",
+                  message=f"{[(short(t, 50), h) for t, h in pcs]}", file=fi.file, node=s_)
+    msel = [s_ for s_ in ast.walk(track_loop) if isinstance(s_, ast.Assign) and any(isinstance(t, ast.Name) and t.id == cur for t in s_.targets)
+            and isinstance(s_.value, ast.Name) and s_.value.id == meta]
+    ok_m = len(msel) == 1
+    if ok_m:
+        pcs = path_conditions(msel[0], track_loop)
+        ok_m = len(pcs) == 2 and pcs[0][1] and _is_meta_test(pcs[0][0]) and (not pcs[1][1]) and _is_member_test(pcs[1][0])
+        ok_m = ok_m or (len(pcs) == 1 and pcs[0][1] and _is_meta_test(pcs[0][0]) and any(x.lineno > msel[0].lineno for x in sel))
+    ctx.check(ok_m, "ROUTE", f"{FN}: a meta-only track (in no group, listed as meta) writes into the meta sequence", function=FN,
+              construct="meta-only tracks do not select the meta sequence as their current sequence",
+              message=f"{[short(x) for x in msel]}", file=fi.file, node=msel[0] if msel else track_loop)
+
     # --- VEL0
     rfi, sp, rt = midi.reader_table(p)
     ctx.analysed(rfi)
+    ctx.floor("reader dispatch cases decided", midi.parse_rule(ctx), 18)
     on = rt.get("note_on", [])
     kinds = sorted((str(r[0]), " and ".join(src(c) for c in r[2])) for r in on)
     pos = [r for r in on if r[0] == "NOTE_ON" and any(isinstance(c, ast.Compare) and isinstance(c.ops[0], ast.Gt) and "velocity" in src(c.left)
